@@ -93,7 +93,13 @@ const NAMED_ZONES: &[&str] = &[
   "Europe/Warsaw", "Europe/London", "America/New_York", "America/Los_Angeles", "America/St_Johns", "Asia/Kolkata", "Asia/Kathmandu", "Australia/Sydney", "Australia/Adelaide", "Pacific/Auckland", "Africa/Johannesburg",
   "America/Sao_Paulo",
 ];
-const LOCALS: &[&str] = &["1990-01-15T00:00:00", "1999-12-31T23:59:59", "2000-02-29T12:00:00", "2010-07-15T06:30:00", "2020-01-15T12:00:00", "2020-07-15T12:00:00"];
+const LOCALS: &[&str] = &[
+  "1990-01-15T00:00:00", "1999-12-31T23:59:59", "2000-02-29T12:00:00", "2010-07-15T06:30:00", "2020-01-15T12:00:00", "2020-07-15T12:00:00",
+  // around a change of date and around daylight-saving transitions (mirrored in oracles/tz_oracle.py, which leaves out the
+  // zones in which such a local time is ambiguous or does not exist)
+  "2021-01-01T22:30:00", "2021-01-01T23:30:00", "2021-01-02T00:30:00", "2021-01-02T01:30:00", "2021-03-14T01:30:00", "2021-03-14T03:30:00", "2021-03-28T00:30:00", "2021-03-28T01:30:00", "2021-03-28T03:30:00", "2021-03-28T04:45:00", "2021-10-31T00:30:00", "2021-10-31T03:30:00",
+];
+const FIRST_NEAR: usize = 6;
 
 fn year_class(y: i64) -> &'static str {
   if y.abs() > 262142 {
@@ -238,7 +244,7 @@ pub fn run() {
     }
   }
   let mut dts: Vec<(String, i128, Value)> = vec![]; // literal, instant (ns), value
-  for l in LOCALS {
+  for (li, l) in LOCALS.iter().enumerate() {
     let frac = if l.ends_with("59") { ".999999999" } else { "" };
     for off in &offsets {
       let z = if *off == 0 { RZone::Utc } else { RZone::Offset(*off) };
@@ -258,7 +264,7 @@ pub fn run() {
             dts.push((text, instant(&r, off), Value::DateTime(v)));
           }
         }
-      } else {
+      } else if li < FIRST_NEAR {
         run.machinery_error(&format!("zone table lacks {} at {}", z, l));
       }
     }
